@@ -67,6 +67,7 @@ func groups(tier string) []group {
 		gs = append(gs, group{fmt.Sprintf("j2t-portable/p%d-%d", from, from+36), func(tier string, y func(*scen) bool) { enumFlat(tier, "j2t-portable", -1, from, from+36, y) }})
 	}
 	gs = append(gs, group{"dirty", enumDirty})
+	gs = append(gs, group{"base-nested", enumBaseNested})
 	return gs
 }
 
